@@ -244,11 +244,75 @@ def _d3(chk, fb):
             chk.unknown("D3", f.key, "matcher-clone", f.loc(), "copies differ pairwise")
 
 
+def _d4(chk, fb):
+    """agreement of a selector with what it selects:
+       (a) KeyvalTools: 'if (nested)' builds a NestedStringTokenizer on the true branch and a StringTokenizer on the false branch, in
+           every function that has the flag (writer-side changeKeyvals and reader-side multipleKeyvals must tokenise alike);
+       (b) DataTable: a duplicate-name refusal that throws Duplicated...RowName... tests rowNames_, ...ColumnName... tests colNames_"""
+    n = 0
+    for f in fb.concrete_fns():
+        if f.cls != "bpp::KeyvalTools" or f.body is None or not any(p_["name"] == "nested" for p_ in f.params):
+            continue
+        for iff in f.all_nodes():
+            if iff["k"] != "IfStmt" or "cond" not in iff or "else" not in iff:
+                continue
+            ct = render(f.nodes[iff["cond"]])
+            if ct not in ("nested", "(!nested)", "!nested"):
+                continue
+            pos = ct == "nested"
+
+            def built(st):
+                out = set()
+                for x in walk(st):
+                    if x["k"] in ("CXXConstructExpr", "CXXTemporaryObjectExpr", "CXXNewExpr") and x.get("callee", {}).get("cls") in ("bpp::NestedStringTokenizer", "bpp::StringTokenizer"):
+                        out.add(x["callee"]["cls"].split("::")[-1])
+                return out
+            th, el = built(f.nodes[iff["then"]]), built(f.nodes[iff["else"]])
+            if not th and not el:
+                continue
+            n += 1
+            want_t, want_e = ({"NestedStringTokenizer"}, {"StringTokenizer"}) if pos else ({"StringTokenizer"}, {"NestedStringTokenizer"})
+            if th == want_t and el == want_e:
+                chk.proved("D4", f.key, "nested-selects-tokenizer", f.loc(iff), "nested -> NestedStringTokenizer, otherwise StringTokenizer")
+            else:
+                chk.refuted("D4", f.key, "nested-selects-tokenizer", f.loc(iff), "%s builds %s when nested is true and %s when it is false: bracketed argument values are split at their inner commas, what the writer emits no longer reads back" % (
+                    f.name, sorted(th) if pos else sorted(el), sorted(el) if pos else sorted(th)), witness={"input": "Invariant(dist=Gamma(n=4,alpha=1),p=0.1)"})
+    chk.floor("D4", "tokenizer selections on the 'nested' flag", n, 2)
+    m = 0
+    for f in fb.concrete_fns():
+        if f.cls != "bpp::DataTable" or f.body is None:
+            continue
+        for t in walk(f.body):
+            if t["k"] != "CXXThrowExpr":
+                continue
+            th = str(t.get("thrown")) + render(t)
+            kind = "row" if "DuplicatedTableRowName" in th else "col" if "DuplicatedTableColumnName" in th else None
+            if kind is None:
+                continue
+            iff = f.enclosing(t, ("IfStmt",))
+            if iff is None:
+                continue
+            ct = render(f.nodes[iff["cond"]], local_inits(f))
+            uses_row, uses_col = "rowNames_" in ct, "colNames_" in ct
+            if not (uses_row or uses_col):
+                continue
+            m += 1
+            ok = (kind == "row" and uses_row and not uses_col) or (kind == "col" and uses_col and not uses_row)
+            if ok:
+                chk.proved("D4", f.key, "duplicate-test:" + kind, f.loc(t), "%s-name refusal tests %s" % (kind, "rowNames_" if kind == "row" else "colNames_"))
+            else:
+                chk.refuted("D4", f.key, "duplicate-test:" + kind, f.loc(t), "%s refuses a duplicated %s name after searching %s: a table whose row and column labels overlap cannot be read back, and repeated %s labels are accepted" % (
+                    f.name, "row" if kind == "row" else "column", "colNames_" if uses_col else "rowNames_", "row" if kind == "row" else "column"), witness={"input": "a square table with labels A,B,C on both axes"})
+    chk.floor("D4", "duplicate-name refusals in DataTable that search a name vector", m, 2)
+
+
 def run(chk, fb, tier):
     chk.rule("D1", "getName() of every concrete family is dispatched by readDiscreteDistribution; every 'key=' the writer emits is looked up by the reader; every 'Family.param' key of the reader names a Parameter a constructor creates")
     chk.rule("D2", "splits_.push_back(E) is the last write of the iteration to the locals E reads; a token stored on a delimiter-found path has its split recorded before the loop continues")
     chk.rule("D3", "matchingParameters (2 overloads) and getMatchingParameterNames are alpha-equivalent statement sequences")
+    chk.rule("D4", "selector agreement: 'nested' selects NestedStringTokenizer / StringTokenizer the same way in every KeyvalTools function; DataTable's duplicate-row (column) refusals search rowNames_ (colNames_)")
     _d1(chk, fb)
     _d2(chk, fb)
     _d3(chk, fb)
+    _d4(chk, fb)
     chk.assume("DirichletDiscreteDistribution is not part of the description language (named exemption)")
